@@ -52,3 +52,33 @@ package badger
 //@   ensures[inline] int64(len(e.Value)) < e.valThreshold ==> result == int64(len(e.Key)) + int64(len(e.Value)) + 2
 //@   ensures[pointer] int64(len(e.Value)) >= e.valThreshold ==> result == int64(len(e.Key)) + 14
 //@   assigns e.valThreshold
+
+// ---- prefix comparison (C05) ----
+
+//@ spec pfx(k []byte, n int) []byte = len(k) > n ? k[:n] : k
+//@ func (*IteratorOptions).compareToPrefix
+//@   props C05 C19
+//@   domain len(key) >= 8
+//@   ensures[userkey-prefix] result == lexcmp(pfx(uk(key), len(opt.Prefix)), opt.Prefix)
+
+// ---- bloom filter use on the read paths (C19) ----
+
+//@ func (*levelHandler).get
+//@   props C19
+//@   light
+//@   requires len(key) >= 8
+//@   assert[bloom-hash] before call DoesNotHave : arg1 == ret(Hash#1)
+//@   assert[hash-of-userkey] before call Hash#1 : arg0 == ret(ParseKey#1)
+//@   assert[userkey-of-key] before call ParseKey#1 : arg0 == key
+
+//@ func (*IteratorOptions).pickTable
+//@   props C19
+//@   light
+//@   assert[bloom-hash] before call DoesNotHave : opt.prefixIsKey && arg1 == ret(Hash#1)
+//@   assert[hash-of-prefix] before call Hash#1 : arg0 == opt.Prefix
+
+//@ func (*IteratorOptions).pickTables
+//@   props C19
+//@   light
+//@   assert[bloom-hash] before call DoesNotHave : opt.prefixIsKey && arg1 == ret(Hash#1)
+//@   assert[hash-of-prefix] before call Hash#1 : arg0 == opt.Prefix
